@@ -26,11 +26,12 @@ type Case struct {
 	Root  *gen.Node  `json:"root"`
 	Types []TypeDecl `json:"types,omitempty"`
 	Opt   bool       `json:"optional_by_default,omitempty"`
+	Mesh  bool       `json:"mesh,omitempty"`
 	Doc   *gen.JV    `json:"doc,omitempty"`
 }
 
 func (c Case) Clone() Case {
-	n := Case{Root: c.Root.Clone(), Opt: c.Opt, Doc: c.Doc}
+	n := Case{Root: c.Root.Clone(), Opt: c.Opt, Mesh: c.Mesh, Doc: c.Doc}
 	for _, t := range c.Types {
 		n.Types = append(n.Types, TypeDecl{t.Name, t.Body.Clone(), t.Enum, t.Regex})
 	}
@@ -43,7 +44,7 @@ func (c Case) Spec() lib.SchemaSpec {
 }
 
 func (c Case) SpecWith(sp gen.Spelling) lib.SchemaSpec {
-	s := lib.SchemaSpec{Text: gen.Render(c.Root, sp).Text, OptionalDef: c.Opt}
+	s := lib.SchemaSpec{Text: gen.Render(c.Root, sp).Text, OptionalDef: c.Opt, Mesh: c.Mesh}
 	for _, t := range c.Types {
 		switch {
 		case t.Body != nil:
@@ -79,6 +80,9 @@ func (c Case) Describe() string {
 	}
 	if c.Opt {
 		b.WriteString(" [KeysAreOptionalByDefault]")
+	}
+	if c.Mesh {
+		b.WriteString(" [every type also added to every type]")
 	}
 	if c.Doc != nil {
 		fmt.Fprintf(&b, " document %s", c.Doc.Compact())
